@@ -89,6 +89,9 @@ inductive AttrVal where
   | bareType
   /-- a parameterised generic such as `list[int]` -/
   | generic
+  /-- a PEP 604 union of bare types such as `int | str` (`types.UnionType`): neither a `type` nor a
+      "generic" for the guard -/
+  | union
   /-- anything else (number, string, function …) -/
   | other
 deriving Repr, DecidableEq, Inhabited
